@@ -194,11 +194,19 @@ fn any_idx() -> usize {
 fn id_of(i: usize) -> SessionId {
     sid(if i == 0 { ID_A } else { ID_B })
 }
-/// a ttl of 1..=TTL_MAX ticks (quarter seconds): sub-second ttls and fractional parts included
+/// a ttl of 1..=TTL_MAX ticks (quarter seconds): sub-second ttls and fractional parts included - or a
+/// huge one, between 2^63 and 2^64 nanoseconds (292 to 584 years: "never expire" configurations), where
+/// arithmetic in signed nanoseconds wraps
 fn any_ttl() -> Duration {
-    let t: u64 = nd::u64_in(1, TTL_MAX);
-    verif_duration(t as i64)
+    if nd::any_bool() {
+        let t: u64 = nd::u64_in(1, TTL_MAX);
+        verif_duration(t as i64)
+    } else {
+        Duration::from_secs(nd::u64_in(HUGE_TTL_LO_S, HUGE_TTL_HI_S))
+    }
 }
+const HUGE_TTL_LO_S: u64 = 9_223_372_037;
+const HUGE_TTL_HI_S: u64 = 18_446_744_073;
 
 /// After the operation: the observable content equals the model's at `now`, and stays equal as
 /// time goes by (compared again at an arbitrary later instant: a stale record must never come back).
